@@ -6,7 +6,7 @@ Import ListNotations.
 Local Open Scope N_scope.
 
 (* terminal description, indexed by terminal id:
-     (fqn prior kind len regex_len mark prefer)
+     (fqn prior kind len name_len mark prefer)
    kind 0 string / 1 keyword / 2 regex or custom; mark 0 = unmarked, 1 = nofinish, 2 = finish *)
 Definition c07_aterm (s : sx) : aterm :=
   let v := repeat 0 (sxNat (sx_nth s 3)) in
